@@ -693,6 +693,63 @@ def leg_warnings(ns, res, spec):
             gn = tuple(int(x) for x in re.findall(r'\d+', warnings[0]))
             if en != gn:
                 res.violation('py:field-count-warning-cites-wrong-records', '[py] table %r: warning %r, expected %r' % (A, warnings, en), {'leg': 'warnings-list', 'A': A})
+    # long tables with three or more record lengths whose first occurrences sit at chosen positions (one- and two- and three-digit record numbers):
+    # the warning cites the first record of each of the first two lengths - through a list table, a CSV file, a join table, and the JS port
+    from ..js import bridge
+    node = bridge.Node.start()
+    try:
+        js_reqs, js_meta = [], []
+        for _ in range(spec['n'] * 2):
+            k = rng.choice([2, 3, 5, 9, 9, 11, 15, 20])
+            m = rng.choice([10, 10, 12, 19, 100, 101, 115]) if k < 10 else rng.choice([100, 100, 110, 123])
+            if m <= k:
+                m = k + 90
+            total = m + rng.randrange(0, 4)
+            l1, l2, l3 = rng.sample([1, 2, 3, 4], 3)
+            A = []
+            for i in range(1, total + 1):
+                L = l1 if i < k else (l2 if i < m else rng.choice([l1, l2, l3]))
+                if i == k:
+                    L = l2
+                if i == m:
+                    L = l3
+                A.append(['v%d' % (i % 7)] * L)
+            en = (1, l1, k, l2)
+            case = {'leg': 'warnings-many-lengths', 'k': k, 'm': m, 'lengths': [l1, l2, l3], 'records': total}
+
+            def check(front, warnings, err=None, en=en, total=total, l1=l1, l2=l2, l3=l3, k=k, m=m, case=case):
+                res.evaluations += 1
+                res.count('many_lengths_warning_runs')
+                res.count('many_lengths_front:' + front)
+                fw = [w for w in warnings if util.warning_kind(w) == 'fields']
+                gn = tuple(int(x) for x in re.findall(r'\d+', fw[0])) if fw else None
+                if err is not None or gn != en:
+                    res.violation('%s:field-count-warning-cites-wrong-records:many-lengths' % ('js' if front.startswith('js') else 'py'), '[%s] %d records, lengths %d / %d / %d first seen at records 1 / %d / %d: warning %r (error %r), expected to cite (record, fields, record, fields) = %r' % (
+                        front, total, l1, l2, l3, k, m, fw or warnings, err, en), dict(case, front=front))
+            out, warnings = [], []
+            ns.rbql.query_table('select NR', [list(r) for r in A], out, warnings)
+            check('py-list', warnings)
+            out, warnings = [], []
+            ns.rbql.query_table('select a1, b1 left join b on NR == bNR', [['x']] * 3, out, warnings, [list(r) for r in A])
+            check('py-join-list', warnings)
+            text = ''.join(','.join(r) + '\n' for r in A)
+            warnings, err = [], None
+            try:
+                it = ns.csv.CSVRecordIterator(io.StringIO(text, newline=''), None, ',', 'quoted')
+                ns.rbql.query('select NR', it, ns.csv.CSVWriter(io.StringIO(), False, None, ',', 'quoted'), warnings)
+            except Exception as e:
+                err = util.error_class(e)
+            check('py-csv', warnings, err)
+            if node is not None:
+                js_reqs.append({'query': 'select NR', 'input': A, 'join': None, 'input_cols': None, 'join_cols': None})
+                js_meta.append(('js-list', check))
+        if node is not None and js_reqs:
+            outs = node.call({'op': 'query_batch', 'cases': js_reqs})['results']
+            for (front, chk), o in zip(js_meta, outs):
+                chk(front, o['warnings'], o['error'] and o['error']['cls'])
+    finally:
+        if node is not None:
+            node.close()
 
 
 def plan(tier, seed):
@@ -710,9 +767,9 @@ def run_shard(spec, res):
 
 def summarize(tier, seed, m):
     return {
-        'rule': 'fault enumeration: one (and two: the first must be named) poisoned record at every position k of tables of 1..6 records x 14 clause placements (SELECT, WHERE, ORDER BY key, GROUP BY key, aggregate argument, aggregate over a failing expression, UPDATE right-hand side, UPDATE target beyond the record, JOIN key on A, composite JOIN key on A (non-adjacent columns), JOIN key on B, missing field under .upper() in SELECT / WHERE, UNNEST list) with poison kinds non-numeric cell under int() / numeric aggregate, missing field, missing join key; %d statically detectable mistakes x 6 spelling / header variants (parsing error, zero records written), %d of them in JS syntax through the JS port; an invalid byte sequence at every offset of a UTF-8 file x 7 sequences x 3 chunk sizes, header / column-list inconsistencies, defective quoted_rfc quoting (IO-handling error); the same bad bytes (bulk, one chunk, cut at the offset, byte by byte) and defective quoting through the JS port, by exception class and by the type its public classifier exception_to_error_info gives (also for a failing record and static mistakes over a CSV file); every subset of the anomalies {ragged, malformed quote, separator in simple output, BOM} (+ None from short records) on header-less full-scan queries with the exact iff and the cited record numbers. The same anomaly subsets also through the JS reader (bulk and streamed in two chunks), engine and writer. the poisoned record at every position of 2-6 record tables delivered by front-ends whose own numbering differs from the record number (CSV with header line, comment lines and multi-line cells through query_csv and the command line; a dataframe with a non-default index; a sqlite table with rowid gaps) under six query shapes: query-execution error naming record k; colorized simple / whitespace output (2-17 columns, delimiters that occur inside the colour escape sequences) with the separator warning iff a FIELD holds the delimiter; distinct_nontrivial counts enumerated scenarios.' % (len(PARSING_QUERIES), len(JS_PARSING_QUERIES)),
+        'rule': 'fault enumeration: one (and two: the first must be named) poisoned record at every position k of tables of 1..6 records x 14 clause placements (SELECT, WHERE, ORDER BY key, GROUP BY key, aggregate argument, aggregate over a failing expression, UPDATE right-hand side, UPDATE target beyond the record, JOIN key on A, composite JOIN key on A (non-adjacent columns), JOIN key on B, missing field under .upper() in SELECT / WHERE, UNNEST list) with poison kinds non-numeric cell under int() / numeric aggregate, missing field, missing join key; %d statically detectable mistakes x 6 spelling / header variants (parsing error, zero records written), %d of them in JS syntax through the JS port; an invalid byte sequence at every offset of a UTF-8 file x 7 sequences x 3 chunk sizes, header / column-list inconsistencies, defective quoted_rfc quoting (IO-handling error); the same bad bytes (bulk, one chunk, cut at the offset, byte by byte) and defective quoting through the JS port, by exception class and by the type its public classifier exception_to_error_info gives (also for a failing record and static mistakes over a CSV file); every subset of the anomalies {ragged, malformed quote, separator in simple output, BOM} (+ None from short records) on header-less full-scan queries with the exact iff and the cited record numbers; tables of 10-130 records with three record lengths first seen at records 1 / k / m (k and m of one, two and three digits) through a list table, a join table, a CSV file and the JS port: the warning cites record 1 and record k. The same anomaly subsets also through the JS reader (bulk and streamed in two chunks), engine and writer. the poisoned record at every position of 2-6 record tables delivered by front-ends whose own numbering differs from the record number (CSV with header line, comment lines and multi-line cells through query_csv and the command line; a dataframe with a non-default index; a sqlite table with rowid gaps) under six query shapes: query-execution error naming record k; colorized simple / whitespace output (2-17 columns, delimiters that occur inside the colour escape sequences) with the separator warning iff a FIELD holds the delimiter; distinct_nontrivial counts enumerated scenarios.' % (len(PARSING_QUERIES), len(JS_PARSING_QUERIES)),
         'exhaustive': True,
-        'required': ['colorized_output_runs', 'frontend_poison_runs:query_csv', 'frontend_poison_runs:cli', 'frontend_poison_runs:pandas', 'frontend_poison_runs:sqlite', 'header_separator_runs', 'poison_runs', 'parsing_runs', 'js_parsing_runs', 'js_warning_runs', 'js_io_runs', 'bad_byte_runs', 'inconsistent_input_runs', 'warning_runs', 'list_warning_runs', 'field_name_checks', 'no_write_before_parsing_error_checks', 'js_cases',
+        'required': ['colorized_output_runs', 'frontend_poison_runs:query_csv', 'frontend_poison_runs:cli', 'frontend_poison_runs:pandas', 'frontend_poison_runs:sqlite', 'header_separator_runs', 'poison_runs', 'parsing_runs', 'js_parsing_runs', 'js_warning_runs', 'js_io_runs', 'bad_byte_runs', 'inconsistent_input_runs', 'warning_runs', 'list_warning_runs', 'many_lengths_warning_runs', 'many_lengths_front:js-list', 'many_lengths_front:py-csv', 'field_name_checks', 'no_write_before_parsing_error_checks', 'js_cases',
                      'warning_iff:bom:present', 'warning_iff:fields:present', 'warning_iff:none:present', 'warning_iff:quote:present', 'warning_iff:sep:present'] + ['poison:' + c for c in CLAUSES],
         'assumptions': ['poison scenarios carry no TOP/LIMIT bound (see C02: the record behind the bound may or may not be evaluated)', 'error texts are never compared: class + record number (tolerant pattern) + field name'],
     }
